@@ -45,15 +45,19 @@ def select_configs(cfgs, rng, n, grids=GRID_MIX_C02):
     return out
 
 
-def contour_cases(ctx, vc, cfgs, seed_shift=0, grids=GRID_MIX_C02, n_quick=60):
+def contour_cases(ctx, vc, cfgs, seed_shift=0, grids=GRID_MIX_C02, n_quick=60, fit_twice=True):
     rng = np.random.default_rng(ctx.seed * 7919 + 20 + seed_shift)
     if ctx.quick:
         chosen = select_configs([c for c in cfgs if c["deltas"] != "default"], rng, n_quick, grids)
         cells2, cells3 = (10, 120), (8, 30)
     else:
-        chosen = [c for c in cfgs if c["deltas"] != "default"]
-        chosen = [chosen[i] for i in rng.permutation(len(chosen))]
-        cells2, cells3 = (10, 160), (8, 45)
+        pool = [c for c in cfgs if c["deltas"] != "default"]
+        pool = [pool[i] for i in rng.permutation(len(pool))]
+        small = [c for c in pool if c["grid"] == "small"]
+        fit = [c for c in pool if c["grid"] == "fit"]
+        # every fit / cut class, every fourth warn-path class, the fit classes a second time
+        chosen = [c for c in pool if c["grid"] != "small"] + small[::4] + (fit if fit_twice else [])
+        cells2, cells3 = (10, 130), (8, 40)
     cases = [H.make_contour_case(vc, rng, c, cells2, cells3) for c in chosen]
     # default deltas (0.25 % of the range = 401 cells per axis) and explicit 300-400 cells / axis
     big_default = [c for c in cfgs if c["deltas"] == "default"]
@@ -244,7 +248,7 @@ def run(ctx):
         "TLC enumerates the configuration classes of a contour (spec/HDCGen.tla: 2-D/3-D, every admissible "
         "conditional_on structure, deltas scalar/list/default, limits explicit/reversed/default, cell-size ratio "
         "1/3/10, grid fit/small/cut, alpha class); quick runs a seeded selection of 60 classes + 1 default-deltas "
-        "contour (401 cells/axis), thorough every class + 5 default-deltas + 4 grids of 300-400 cells/axis + 2 3-D "
+        "contour (401 cells/axis), thorough every fit/cut class (fit twice), every 4th small class + 5 default-deltas + 4 grids of 300-400 cells/axis + 2 3-D "
         "grids of 50-60 cells/axis.  Each class is instantiated with a seeded random model over the 7 shipped "
         "families (marginal or conditional with dependence functions) and a grid derived from the model's "
         "quantiles.  Additionally TLC enumerates every array P in [1..n -> 0..v] and limit L (n=4,v=3 quick; n=5,v=3 "
